@@ -44,6 +44,10 @@ pub fn items(text: &str) -> Vec<String> {
         } else if SEPARATORS.contains(ch) {
             out.push(ch.to_string());
             i += 1;
+        } else if ch == '-' && i + 1 < c.len() && c[i + 1].is_ascii_digit() {
+            // X.680 19: SignedNumber ::= number | "-" number - the sign is a lexical item of its own
+            out.push("-".into());
+            i += 1;
         } else {
             let mut j = i;
             while j < c.len() && !c[j].is_whitespace() && !SEPARATORS.contains(c[j]) {
@@ -103,5 +107,17 @@ pub fn may_touch(a: &str, b: &str) -> bool {
     if la == '-' && fb == '-' {
         return false;
     }
+    // the sign of a signed number may touch its number
+    if is_sign(a) && is_number(b) {
+        return true;
+    }
     single_sep(a) || single_sep(b) || (SEPARATORS.contains(la) && la != '\'' && la != '"') || (SEPARATORS.contains(fb) && fb != '\'' && fb != '"')
+}
+
+pub fn is_sign(item: &str) -> bool {
+    item == "-"
+}
+
+pub fn is_number(item: &str) -> bool {
+    !item.is_empty() && item.chars().all(|c| c.is_ascii_digit())
 }
